@@ -361,6 +361,37 @@ theorem addUnexpected_isEmpty (ks : List String) (errs : List (Key × Err)) :
       exact absurd (addUnexpected_eq_nil (ks := ks) h) (setChild_ne_nil _ _ _)
     | cons a b => rfl
 
+theorem addDepMissing_eq_nil {ms : List (String × List String)} {errs : List (Key × Err)}
+    (h : addDepMissing ms errs = []) : ms = [] ∧ errs = [] := by
+  induction ms generalizing errs with
+  | nil => exact ⟨rfl, h⟩
+  | cons m ms ih =>
+    unfold addDepMissing at h
+    rw [List.foldl_cons] at h
+    exact absurd (ih h).2 (setChild_ne_nil _ _ _)
+
+theorem addDepMissing_isEmpty (ms : List (String × List String)) (errs : List (Key × Err)) :
+    (addDepMissing ms errs).isEmpty = (ms.isEmpty && errs.isEmpty) := by
+  cases ms with
+  | nil => simp [addDepMissing]
+  | cons m ms =>
+    simp only [List.isEmpty_cons, Bool.false_and]
+    cases h : addDepMissing (m :: ms) errs with
+    | nil => exact absurd (addDepMissing_eq_nil h).1 (List.cons_ne_nil _ _)
+    | cons a b => rfl
+
+/-- the loop reports a `required by` error exactly when `dependent_required` is violated -/
+theorem depMissing_isEmpty : ∀ (infos : List FieldInfo) (kvs : List (String × Py)),
+    (depMissing infos kvs).isEmpty = depOk infos kvs
+  | [], _ => rfl
+  | f :: fs, kvs => by
+    have ih := depMissing_isEmpty fs kvs
+    unfold depOk at ih ⊢
+    rw [depMissing, List.all_cons]
+    cases hv : depViolated f kvs with
+    | true => simp
+    | false => simpa using ih
+
 theorem isOk_ite {α} (b : Bool) (x : α) (e : Err) :
     (if b = true then Outcome.ok x else Outcome.invalid e).isOk = b := by
   cases b <;> rfl
@@ -369,7 +400,7 @@ theorem isOk_ite {α} (b : Bool) (x : α) (e : Err) :
 theorem isOk_finishObj {ci infos own ap} {fs : List (FieldInfo × Meth)} {kvs : List (String × Py)}
     (hnf : NoFbod fs) (hk : (keysOf kvs).Nodup) (ha : (aliasesM fs).Nodup) (u : Bool) :
     (finishObj ci infos own ap (aliasesM fs) (runFields u fs kvs) kvs).isOk
-      = (own.isEmpty && (fieldsOkM fs kvs && noUnexpected ap (aliasesM fs) kvs)) := by
+      = (own.isEmpty && (fieldsOkM fs kvs && noUnexpected ap (aliasesM fs) kvs && depOk infos kvs)) := by
   obtain ⟨h1, h2⟩ := runFields_clean hnf u kvs
   rw [← h1, noUnexpected_eq]
   unfold finishObj
@@ -393,9 +424,9 @@ theorem isOk_finishObj {ci infos own ap} {fs : List (FieldInfo × Meth)} {kvs : 
         · have : (kvs.length != (runFields u fs kvs).count) = true := by simpa using hlen
           simp only [this, if_true, addUnexpected_isEmpty]
           exact Bool.and_comm _ _
-    simp only [isOk_ite, herrs]
+    simp only [isOk_ite, addDepMissing_isEmpty, depMissing_isEmpty, herrs]
     cases own.isEmpty <;> cases (runFields u fs kvs).errs.isEmpty <;> cases ap <;>
-      cases (unexpectedKeys (aliasesM fs) kvs).isEmpty <;> rfl
+      cases (unexpectedKeys (aliasesM fs) kvs).isEmpty <;> cases depOk infos kvs <;> rfl
 
 /-- acceptance of `SimpleObjectMethod` on a dict -/
 theorem isOk_finishSimple {ci : ClassInfo} {infos} {fs : List (FieldInfo × Meth)} {kvs : List (String × Py)}
@@ -609,13 +640,25 @@ theorem dictOk_congr {c d} {p q : List (String × Py) → Bool}
 theorem withFbod_id {o : DOpts} (ho : o.fallBackOnDefault = false) (f : FieldInfo) : withFbod o f = f := by
   unfold withFbod; simp [ho]
 
+/-- the compiled fields carry the declared field records -/
+theorem infos_of_All2 {P : Meth → Ty → Prop} {ms : List (FieldInfo × Meth)} {ts : List (FieldInfo × Ty)}
+    (h : All2 (fun (fm : FieldInfo × Meth) (ft : FieldInfo × Ty) => fm.1 = ft.1 ∧ P fm.2 ft.2) ms ts) :
+    infosM ms = infosOf ts := by
+  induction h with
+  | nil => rfl
+  | @cons a b l1 l2 hab _ ih =>
+    obtain ⟨f, m⟩ := a; obtain ⟨f', t⟩ := b
+    rw [infosM, ih]; unfold infosOf; rw [List.map_cons]
+    exact congrArg (· :: _) hab.1
+
 /-- acceptance of whichever object method `object()` selects -/
 theorem isOk_objSel {o : DOpts} {ci c} {ms : List (FieldInfo × Meth)} {ts : List (FieldInfo × Ty)}
     (h : AcceptsF o ms ts) (hacc : nfF ts = true) (hal : (aliasesOf ts).Nodup) (d : Py) (hw : d.wf = true) :
     (run (objSel o ci c ms) d).isOk
       = dictOk c d (fun kvs => conformsF o.additionalProperties false ts kvs
-                                && noUnexpected o.additionalProperties (aliasesOf ts) kvs) := by
+                                && noUnexpected o.additionalProperties (aliasesOf ts) kvs && depOk (infosOf ts) kvs) := by
   obtain ⟨hfields, halias, hnf⟩ := fields_of_AcceptsF h hacc
+  have hinfos := infos_of_All2 h
   have ha : (aliasesM ms).Nodup := halias ▸ hal
   unfold objSel
   simp only
@@ -623,13 +666,14 @@ theorem isOk_objSel {o : DOpts} {ci c} {ms : List (FieldInfo × Meth)} {ts : Lis
   · -- SimpleObjectMethod
     rename_i hcond
     simp only [Bool.and_eq_true, Bool.not_eq_true', beq_iff_eq] at hcond
-    obtain ⟨⟨⟨hc, htd⟩, _⟩, _⟩ := hcond
+    obtain ⟨⟨⟨hc, htd⟩, _⟩, hsimple⟩ := hcond
     rw [run]
     cases d <;> simp [onDict, dictOk, isOk_badType]
     case dict kvs =>
       rw [Py.wf, Bool.and_eq_true] at hw
       have hk : (keysOf kvs).Nodup := keysK_eq kvs ▸ nodup_of_distinctStrs hw.1
-      rw [isOk_finishSimple hnf hk ha, hfields kvs hw.2, halias, dictErrors_nil hc, htd]
+      rw [isOk_finishSimple hnf hk ha, hfields kvs hw.2, halias, dictErrors_nil hc, htd, ← hinfos,
+        depOk_of_noDeps (simpleOk_noDeps hsimple) kvs]
       simp
   · -- ObjectMethod
     rw [run]
@@ -637,7 +681,7 @@ theorem isOk_objSel {o : DOpts} {ci c} {ms : List (FieldInfo × Meth)} {ts : Lis
     case dict kvs =>
       rw [Py.wf, Bool.and_eq_true] at hw
       have hk : (keysOf kvs).Nodup := keysK_eq kvs ▸ nodup_of_distinctStrs hw.1
-      rw [isOk_finishObj hnf hk ha, hfields kvs hw.2, halias]
+      rw [isOk_finishObj hnf hk ha, hfields kvs hw.2, halias, hinfos]
 
 theorem lastMatch_isSome (d : Py) : ∀ (vs : List Lit) (i : Nat) (acc : Option (Nat × Lit)),
     (runLiteral.lastMatch d vs i acc).isSome = (acc.isSome || vs.any (litMatches d))
